@@ -539,14 +539,12 @@ mod u7 {
         }
         assert!(nt.heap_list.len() == want_nodes && disjoint(&nt.heap_list, &a.heap_list), "the task has its own heap");
         assert!(nt.heap_size == heap_bytes(&nt.heap_list));
-        // a mutation made inside the task (real arms, on the task's thread) is invisible to the spawner
-        let mut nt = nt;
+        // a mutation made by the spawner after the spawn (real arms) is invisible to the task
         if n > 0 {
             let nv = sc(ValueTag::Int);
             kani::assume(nv != lv[0].e[0] && nv != lv[0].e[1]);
-            let c0 = nt.value_stack[0];
-            if poke(s[0], c0, &mut nt, &lv[0], nv) {
-                expect(s[0], v[0], &lv[0], &a.heap_list);
+            if poke(s[0], v[0], &mut a, &lv[0], nv) {
+                expect(s[0], nt.value_stack[0], &lv[0], &nt.heap_list);
             }
         }
         kani::cover!(true, "reachable");
@@ -872,7 +870,7 @@ mod u7 {
     inst!(fifo_two_scalar, fifo_two(Sh::Scalar, Sh::Scalar));
     inst!(fifo_two_str_struct, fifo_two(Sh::Str1, Sh::Struct2));
     inst!(fifo_two_mix_job, fifo_two(Sh::MixJob, Sh::Scalar));
-    inst!(fifo_one_mix_tuple, fifo_one(Sh::MixTuple, Sh::MixIntStr));
+    inst!(fifo_one_mix_int_str, fifo_one(Sh::MixIntStr, Sh::Scalar));
     inst!(fifo_two_arr, fifo_two(Sh::Arr(1), Sh::Scalar));
 
     inst!(ownership_drop_str, ownership_drop(Sh::Str1));
